@@ -175,8 +175,10 @@ def check_orientation(run, ctx):
         body = ctx.prog.bodies[xid]
         from .roles import normal_form, SYM
         sumrole = ra if ra != 'MAX_MEM' else rb
-        left, sym, right = normal_form(op, ra, rb, [sumrole, 'MAX_MEM'])
-        raw_false = 0 if (SYM[op] in ('<=', '<')) == (ra == left) else 1
+        ftv = C.truth_value(fn, (xid, bi, si), 'fits')
+        if ftv is None:
+            continue
+        raw_false = 1 - ftv
         member = [(x.id, b) for x in C.scope(fn) for b, t in x.calls() if classify(t) == 'S?']
         selected = [(x.id, b) for x in C.scope(fn) for b, t in x.calls() if classify(t) in ('Q-front', 'Q-at', 'Q-back')]
         for p in (0, 1):
